@@ -810,3 +810,41 @@ Fixpoint c09_scan (n : nat) (t : otrace) (pe : pending okm) (pc : pending cntm) 
   end.
 
 Definition c09_oracle (n : nat) (t : otrace) : bool := c09_scan n t [] [].
+
+(** ** The discipline under which the C09 oracle is sound for this code
+
+    The oracle attributes a child's reply to the oldest submission of that id
+    the child has not answered yet (FIFO); the code keeps ONE slot vector per
+    id.  The two coincide on the histories in which
+    - a request (EVENT id / COUNT subscription id) is submitted only while no
+      request of the same kind with the same id is in flight, and
+    - a child answers a request in flight at most once
+    (replies for an id nobody waits for are allowed: both drop them).
+    [flight]: the requests in flight with the replies received so far. *)
+Definition flight (A : Type) := list (str * list (nat * A)).
+
+(** a reply of child [i] under key [k]; [None] = the discipline is broken *)
+Definition disc_reply {A} (n i : nat) (k : str) (a : A) (fl : flight A) : option (flight A) :=
+  match assoc k fl with
+  | None => Some fl
+  | Some rs =>
+      if has_child i rs then None
+      else if complete n ((i, a) :: rs) then Some (m_del k fl)
+      else Some (m_set k ((i, a) :: rs) fl)
+  end.
+
+Fixpoint c09_disc (n : nat) (t : list input) (fe : flight okm) (fc : flight cntm) : bool :=
+  match t with
+  | [] => true
+  | CEvent id :: t' =>
+      match assoc id fe with Some _ => false | None => c09_disc n t' (m_set id [] fe) fc end
+  | CCount sub :: t' =>
+      match assoc sub fc with Some _ => false | None => c09_disc n t' fe (m_set sub [] fc) end
+  | Child i (SOk m) :: t' =>
+      match disc_reply n i (ok_id m) m fe with None => false | Some fe' => c09_disc n t' fe' fc end
+  | Child i (SCount m) :: t' =>
+      match disc_reply n i (c_sub m) m fc with None => false | Some fc' => c09_disc n t' fe fc' end
+  | _ :: t' => c09_disc n t' fe fc
+  end.
+
+Definition c09_disciplined (n : nat) (t : list input) : Prop := c09_disc n t [] [] = true.
